@@ -30,4 +30,20 @@ theorem gen_penc_cid_eq (id : Nat) (c : Bytes) : penc_cid id c = encParam id (.c
 theorem gen_penc_reset_token_eq (id : Nat) (t : Bytes) : penc_reset_token id t = encParam id (.token t) := by
   first | rfl | simp [penc_reset_token, encParam]
 
+theorem gen_penc_preferred_address_eq (id : Nat) (b : Bytes) :
+    penc_preferred_address id b = encParam id (.pref b) := by
+  first | rfl | simp [penc_preferred_address, encParam]
+
+/-- the `match value` dispatch of `put_parameter` -/
+theorem gen_penc_eq (id : Nat) (v : PVal) : penc id v = encParam id v := by
+  cases v <;> simp only [penc] <;>
+    first
+    | exact gen_penc_varint_eq id _ | exact gen_penc_duration_eq id _ | exact gen_penc_bool_eq id
+    | exact gen_penc_bytes_eq id _ | exact gen_penc_cid_eq id _ | exact gen_penc_reset_token_eq id _
+    | exact gen_penc_preferred_address_eq id _
+
+/-- the `for (id, value) in &params.map` loop of `put_parameters`, for every iteration order -/
+theorem gen_penc_all_eq (m : PMap) : penc_all m = putParams m := by
+  simp only [penc_all, putParams, List.flatMap_def, gen_penc_eq]
+
 end GmQuic.Params
